@@ -409,6 +409,7 @@ impl Session {
                 v["ok"] = json!(true);
                 v
             }
+            "values" => crate::valw::values(self, cmd),
             "c15_sweep" => {
                 let mut v = crate::c15w::sweep(self);
                 v["ok"] = json!(true);
